@@ -90,15 +90,15 @@ def one_frame_case(api, fin, op, key, n, kind, lenform=None):
     try:
         if api == "recv_frame":
             f = ws.recv_frame()
-            got = (f.fin, f.opcode, bytes(f.data))
+            got = (f.fin, f.opcode, env.B(f.data))
             want = (fin, op, payload)
         elif api == "recv_data_frame":
             o, f = ws.recv_data_frame(True)
-            got = (o, f.fin, f.opcode, bytes(f.data))
+            got = (o, f.fin, f.opcode, env.B(f.data))
             want = (op, fin, op, payload)
         elif api == "recv_data":
             o, d = ws.recv_data(True)
-            got = (o, bytes(d))
+            got = (o, env.B(d))
             want = (op, payload)
         else:
             v = ws.recv()
@@ -119,7 +119,7 @@ def one_frame_case(api, fin, op, key, n, kind, lenform=None):
     # the sentinel must come out intact
     try:
         f2 = ws.recv_frame()
-        ok = (f2.fin, f2.opcode, bytes(f2.data)) == (1, R.BINARY, b"\xa5SENTINEL\x5a")
+        ok = (f2.fin, f2.opcode, env.B(f2.data)) == (1, R.BINARY, b"\xa5SENTINEL\x5a")
     except Exception as e:
         ok = False
     if not ok:
@@ -191,14 +191,14 @@ def tuple_case(symidx, cfg="default"):
             o, f = ws.recv_data_frame(True)
         except Exception as e:
             return ({"kind": "stream-exception", "exc": type(e).__name__}, "frame %d of stream %r: %s %s" % (j, symidx, type(e).__name__, e))
-        if (o, bytes(f.data)) != (op, payload):
+        if (o, env.B(f.data)) != (op, payload):
             return ({"kind": "stream-mismatch", "class": kind}, "frame %d of stream %r: got opcode %r / %d bytes, expected %r / %d bytes" % (
                 j, symidx, o, len(f.data), op, len(payload)))
         if sock.cursor != bounds_[j]:
             return ({"kind": "stream-cursor", "class": kind}, "after frame %d of stream %r the cursor is %d, frame boundary is %d" % (j, symidx, sock.cursor, bounds_[j]))
     try:
         f2 = ws.recv_frame()
-        ok = bytes(f2.data) == b"\xa5SENTINEL\x5a"
+        ok = env.B(f2.data) == b"\xa5SENTINEL\x5a"
     except Exception:
         ok = False
     if not ok:
